@@ -3,8 +3,14 @@ from .common import *
 def run(tier):
     r = Run('C15', tier)
     cfgs = [(1, 16, 1, 0), (2, 33, 2, 1), (2, 0, 4, 2)] if tier == 'quick' else [(th, n, n % 5, n % 3) for th in (1, 2, 3) for n in (0, 15, 16, 33, 48)]
-    for th, n, ct, ht in cfgs:
-        e2e_ob(r, 'three-ops-T%d-len%d' % (th, n), th, n, ct, ht, 1, extra=['ROUNDTRIP', 'PRE_FAIL'], k=None, timeout=900 if tier == 'quick' else 3600)
+    for i, (th, n, ct, ht) in enumerate(cfgs):
+        e2e_ob(r, 'three-ops-T%d-len%d-fail%d' % (th, n, 1 + i % 3), th, n, ct, ht, 1, extra=['ROUNDTRIP', 'PRE_FAIL=%d' % (1 + i % 3)], k=None, timeout=900 if tier == 'quick' else 3600)
+    # two pipelines with DIFFERENT worker counts in one process image (real code, canonical schedule, marker cipher)
+    up = U_kern_pipe(1)
+    for (t1, n1, t2, n2) in ((3, 40, 1, 16), (2, 40, 1, 33), (1, 20, 2, 16)) if tier == 'quick' else ((3, 40, 1, 16), (3, 40, 2, 16), (2, 40, 1, 33), (1, 20, 2, 16), (2, 50, 3, 40), (3, 70, 1, 0)):
+        k = 200 + 4 * (n1 + n2)
+        r.add(Ob('two-pipelines-T%d-len%d-then-T%d-len%d' % (t1, n1, t2, n2), 'h_pipe.c', [up], defines=['THREADS=%d' % t1, 'DLEN=%d' % n1, 'ENC=1', 'K=%d' % k, 'SCHED_CANON', 'SECOND_T=%d' % t2, 'SECOND_LEN=%d' % n2] + PIPE_DEFS,
+                 unwind=k + 40, timeout=900, mem_gb=24, envs=PIPE_ENVS, replay='none', cbmc_extra=FS))
     # failing operations leave the process-global state initial: gate harness (C11) asserts it for every rejected input
     gate_obligations(r, tier, [0, 9, 74, 138] if tier == 'quick' else list(range(0, 161, 10)), prefix='reject-', ops=('decrypt', 'verify'))
     r.bounds = ['histories: failing decrypt, then encrypt, then decrypt of its output, in one process image, for %s; after EVERY operation the mutable process globals of the kernel (buffergroup::instance, bufferctrl::live_num, buffergroup::mtx) are asserted to be in their initial state, which makes each operation\'s behaviour independent of the history (induction over histories)' % cfgs]
